@@ -77,6 +77,7 @@ def main():
     ap.add_argument("--tier", default="quick")
     ap.add_argument("--props")
     ap.add_argument("--only")
+    ap.add_argument("--start", help="skip mutants before this name")
     ap.add_argument("-v", action="store_true")
     a = ap.parse_args()
     if a.cmd == "list":
@@ -99,11 +100,21 @@ def main():
             print(f"{ms[0]['name']} {pid}: rc={rc} violations={nv}")
     elif a.cmd == "all":
         bad = 0
+        started = not a.start
         for m in load():
+            if not started:
+                started = m["name"] == a.start
+                if not started:
+                    continue
             props = [p for p in m["props"] if not a.only or p == a.only]
             if not props:
                 continue
-            res = run_one(m, props, a.tier)
+            try:
+                res = run_one(m, props, a.tier)
+            except SystemExit as ex:
+                print(f"{'STALE-MUTANT':14s} {m['name']}: {ex}")
+                bad += 1
+                continue
             for pid, (rc, nv, tail) in res.items():
                 status = "CAUGHT" if rc == 1 else ("MISSED" if rc == 0 else "HARNESS-ERROR")
                 if rc != 1:
